@@ -91,26 +91,34 @@ RECURSIVE CarryLen(_,_)
 CarryLen(groups, i) == IF i > Len(groups) THEN 0 ELSE Len(groups[i]) + CarryLen(groups, i + 1)
 NextIsRound == IF l + 1 <= Len(Log) THEN Log[l + 1].e = "Round" ELSE FALSE
 
+SyncSlots == {Ev.sync[i].s : i \in 1..Len(Ev.sync)}
+\* how the messages staged for r by this step are accounted for: "now" (they are the next observations of this
+\* round) or "carry" (the client had stopped reading for this round: it reads them first thing next round).
+\* A monitor cannot take part in the barrier; the driver reads it until it falls quiet after the last closing
+\* ping, so what is staged for it after that point may land in either round.
+NowOK(r, grp) == /\ cnt[r] + Len(grp) <= Len(Ev.obs[r])
+                 /\ GroupMatch(SubSeq(Ev.obs[r], cnt[r] + 1, cnt[r] + Len(grp)), grp)
+LateMonitor(r) == cst[r] = "monitor" /\ IsRound /\ sdone = SyncSlots /\ \A s \in Slot : pos[s] = Len(Ev.ops[s])
+Mode(r, grp) == IF r \in sdone THEN "carry"
+                ELSE IF LateMonitor(r) /\ (carry[r] # <<>> \/ ~NowOK(r, grp)) THEN "carry"
+                ELSE "now"
 ExplainOK(g) ==
   \A r \in Slot : r \notin g =>
         LET grp == GroupFor(out', r) IN
-        IF r \notin sdone
-        THEN /\ cnt[r] + Len(grp) <= Len(Ev.obs[r])
-             /\ GroupMatch(SubSeq(Ev.obs[r], cnt[r] + 1, cnt[r] + Len(grp)), grp)
-        \* already past its closing ping: the client reads this at the start of the next round (checked at once)
-        ELSE IF grp = <<>> THEN TRUE ELSE IF NextIsRound THEN CarryMatch(Log[l + 1].obs[r], 0, Append(carry[r], grp), 1) ELSE TRUE
+        IF grp = <<>> THEN TRUE
+        ELSE IF Mode(r, grp) = "now" THEN NowOK(r, grp)
+        ELSE IF NextIsRound THEN CarryMatch(Log[l + 1].obs[r], 0, Append(carry[r], grp), 1) ELSE TRUE
 Explain(g) ==
   /\ \/ ExplainOK(g)
      \/ /\ Debug
         /\ PrintT(<<"MISMATCH", ToJson([l |-> l, pos |-> pos, cnt |-> cnt, out |-> out',
-                     bad |-> {r \in Slot : r \notin g /\ r \notin sdone /\
-                               ~(LET grp == GroupFor(out', r) IN
-                                 /\ cnt[r] + Len(grp) <= Len(Ev.obs[r])
-                                 /\ GroupMatch(SubSeq(Ev.obs[r], cnt[r] + 1, cnt[r] + Len(grp)), grp))},
-                     badcarry |-> {r \in Slot : r \notin g /\ r \in sdone /\ GroupFor(out', r) # <<>>}])>>)
+                     bad |-> {r \in Slot : r \notin g /\ GroupFor(out', r) # <<>> /\ Mode(r, GroupFor(out', r)) = "now"
+                                           /\ ~NowOK(r, GroupFor(out', r))},
+                     badcarry |-> {r \in Slot : r \notin g /\ GroupFor(out', r) # <<>> /\ Mode(r, GroupFor(out', r)) = "carry"}])>>)
         /\ FALSE
-  /\ cnt' = [r \in Slot |-> IF r \in g \/ r \in sdone THEN cnt[r] ELSE cnt[r] + Len(GroupFor(out', r))]
-  /\ carry' = [r \in Slot |-> IF r \in sdone /\ r \notin g /\ GroupFor(out', r) # <<>>
+  /\ cnt' = [r \in Slot |-> IF r \in g \/ GroupFor(out', r) = <<>> \/ Mode(r, GroupFor(out', r)) = "carry"
+                             THEN cnt[r] ELSE cnt[r] + Len(GroupFor(out', r))]
+  /\ carry' = [r \in Slot |-> IF r \notin g /\ GroupFor(out', r) # <<>> /\ Mode(r, GroupFor(out', r)) = "carry"
                                THEN Append(carry[r], GroupFor(out', r)) ELSE carry[r]]
 
 \* ---- abstract message of a "send" op
@@ -155,7 +163,7 @@ ReadySet == {s \in Slot : PingReady(s)}
 MayStep(s) == IF ReadySet = {} THEN TRUE ELSE s = CHOOSE x \in ReadySet : \A y \in ReadySet : x <= y
 
 TStep(s) ==
-  /\ IsRound /\ pos[s] < Len(Ev.ops[s]) /\ s \notin skipd /\ MayStep(s)
+  /\ IsRound /\ pos[s] < Len(Ev.ops[s]) /\ (s \notin skipd \/ Ev.ops[s][pos[s] + 1].k = "connect") /\ MayStep(s)
   /\ LET op == Ev.ops[s][pos[s] + 1] IN
      /\ Apply(s, op)
      /\ pos' = [pos EXCEPT ![s] = @ + 1]
@@ -176,7 +184,6 @@ TSkip(s) ==
   /\ UNCHANGED vars /\ UNCHANGED <<l, cnt, sdone, gone, kicked, devs, carry>>
 
 AllOpsDone == \A s \in Slot : pos[s] = Len(Ev.ops[s])
-SyncSlots == {Ev.sync[i].s : i \in 1..Len(Ev.sync)}
 SyncSer(s) == (CHOOSE i \in 1..Len(Ev.sync) : Ev.sync[i].s = s)
 \* the driver does the closing pings one client after the other, in increasing slot order
 TSync(s) ==
@@ -223,7 +230,7 @@ TEnd ==
 
 TEndDebug ==
   /\ Debug /\ IsRound /\ AllOpsDone /\ sdone = SyncSlots
-  /\ PrintT(<<"ENDSTATE", ToJson([l |-> l, epoch |-> cfg.epoch, pend |-> pend, kicked |-> kicked, eof |-> EofSet, cnt |-> cnt,
+  /\ PrintT(<<"ENDSTATE", ToJson([l |-> l, epoch |-> cfg.epoch, pend |-> pend, kicked |-> kicked, eof |-> EofSet, cnt |-> cnt, cst |-> cst, dying |-> dying,
                                  lens |-> [r \in Slot |-> Len(Ev.obs[r])], gone |-> gone, expMust |-> Ev.expMust])>>)
   /\ FALSE /\ UNCHANGED vars /\ UNCHANGED tvars
 
